@@ -1,11 +1,44 @@
 """What MANIFEST.json claims, per property."""
-HOOK_COMMITS = ["77b2c42", "6128e10", "5f416f7", "71aa134", "8a2b985", "97ca607", "00b31e7", "29278f7", "85b0f09", "9dbd401", "f1dc223"]
-FIX_COMMITS = ["5da2d24", "9b55744", "1ceb643", "2d49340", "9d87992", "737054a", "6331ab3", "02d90a3", "55099e0", "525f2ed", "54287dc", "82ec18b", "6946a78", "98af13c", "7d6d443", "c8fc19d", "fe16054"]
+HOOK_COMMITS = ["77b2c42", "6128e10", "5f416f7", "71aa134", "8a2b985", "97ca607", "00b31e7", "29278f7", "85b0f09", "9dbd401", "f1dc223", "2b0d9e1"]
+FIX_COMMITS = ["5da2d24", "9b55744", "1ceb643", "2d49340", "9d87992", "737054a", "6331ab3", "02d90a3", "55099e0", "525f2ed", "54287dc", "82ec18b", "6946a78", "98af13c", "7d6d443", "c8fc19d", "fe16054", "301ccb6", "5b06179"]
 NOTES = ("Every check: TLC model-checks the module's design on small constants, then binds it to /repo's current working "
          "tree (rebuilt on every run with -tags verif). Exit 2 = infrastructure problem, never a verdict.")
 NOT_APPLICABLE = {}
 SUSPENDED = {}
 CHECKS = {
+    "C02": {
+        "text": "FzfAlgo/FzfAlgoV2.tla give a declarative Witness per matcher and algorithmic sub-specs; TLC proves on every "
+                "(text<=5(8), pattern<=2(3)) over 6 class-covering alphabets that they agree, that results are valid, and that run-"
+                "length shortening preserves witnesses. The same enumeration (4.9 M inputs thorough) with TLC's predicted "
+                "matched/range/positions is replayed on algo.* in bytes and runes, withPos on/off, nil/real/5 scaled-down slabs, 3 "
+                "schemes. Random texts <=300 / patterns <=12 and run-length-encoded lines >65 535 runes are judged by ValidResult.",
+        "design_ref": "DESIGN.md §6 C02",
+        "note": "Finite symbol alphabet bound at start-up against charClassOf / unicode / normalizeRune; admissible patterns only "
+                "(lower-cased / normalised as the API requires); which valid alignment V2 reports is code-derived (validity judged); "
+                "giant lines without positions: bounds and end characters only. Trusted: TLC, the harness dispatch.",
+        "technique": "TLA+ spec + TLC exhaustive MC; TLC-computed cases replayed on real code; real executions judged by TLC",
+    },
+    "C03": {
+        "text": "Scoring constants, Bonus, the plain whole-line V2 recurrence and AlignScore/BestAlign in TLA+; TLC proves the V2 score "
+                "is an existing alignment's score <= best on the bounded space; Score of every matcher/variant (bytes/runes, "
+                "slabs, directions, 3 schemes) equals TLC's value on the exhaustive enumeration, and on random texts <=64 / "
+                "patterns <=8 judged by TLC.",
+        "design_ref": "DESIGN.md §6 C03",
+        "note": "Scores far below int16 saturation; boundary/equal closed formulas are code-derived. Observation (not a violation of "
+                "the stated property): the V2 programme is not optimal w.r.t. calculateScore. Trusted: TLC, the harness dispatch.",
+        "technique": "TLA+ spec + TLC exhaustive MC; TLC-computed cases replayed on real code; real executions judged by TLC",
+    },
+    "C05": {
+        "text": "FzfAlgoSlab.tla: slab contents arbitrary, Call result = F(args) (Pure) model-checked over all histories of a small "
+                "argument space; exhaustive cases, TLC-simulated call histories and a seeded multi-million-call scan run on "
+                "poisoned slabs (0x7fff, -1, pseudo-random, stale), bytes vs runes, withPos on/off, and must equal TLC's F(args). "
+                "Process level (c05_proc): fzf -f on lists vs random sub-lists under all 172 tiebreak settings, judged by TLC with "
+                "the sub-list theorem of FzfRank (Ranked(sub) = Ranked(all) restricted to sub).",
+        "design_ref": "DESIGN.md §6 C05",
+        "note": "Slab capacity is an argument (documented fallback), contents are not; deviations shared with the reference call are "
+                "deferred to C02/C03. Known finding F7 (V2 Start without positions). Trusted: TLC, the harness dispatch.",
+        "technique": "TLA+ spec + TLC exhaustive MC; TLC-computed cases replayed on real code; real executions judged by TLC",
+    },
     "C15": {
         "text": "FzfScreen specifies the rendition of the finder state for the comparable configuration (--no-color --no-unicode "
                 "--no-hscroll --no-scrollbar, full screen): Render(state, WxH, cfg) gives every terminal row (prompt with scrolled "
